@@ -8,6 +8,10 @@
 #include <unistd.h>
 
 static int r_wrdata(void) {
+    /* this driver exercises one clause only (a partially filled final block eligible for omission); for any other clause of wr_data it
+     * declines, so that the known finding F31 is not mistaken for a reproduction of something else */
+    const char * desc = getenv("VG_OBLIGATION_DESC");
+    if (desc && desc[0] && !strstr(desc, "only full blocks are omitted")) { printf("replay: no native driver for this clause\n"); return 0; }
     uint32_t bits = (uint32_t) vg_in_u64("bits", 8), count = (uint32_t) vg_in_u64("count", 1), spd = (uint32_t) vg_in_u64("spd", 32);
     uint32_t dt = bits == 1 ? JLS_DATATYPE_U1 : bits == 4 ? JLS_DATATYPE_U4 : bits == 8 ? JLS_DATATYPE_U8 : bits == 16 ? JLS_DATATYPE_I16
                 : bits == 24 ? JLS_DATATYPE_I24 : bits == 32 ? JLS_DATATYPE_F32 : JLS_DATATYPE_F64;
